@@ -45,6 +45,8 @@ TCrashRead ==
            m  == ReadFile(sb, e.withIdx, xb)
        IN  /\ Len(sb) = e.shpLen /\ (e.withIdx => Len(xb) = e.shxLen)    \* same persisted files on both sides
            /\ e.res.err # "panic"
+           \* what is on the disk is read the same way through a path as through a handle
+           /\ e.byPath.items = g /\ e.byPath.err = e.res.err /\ e.byPath.openErr = e.res.openErr
            /\ GenuinePrefix(g, cur.shapes)
            /\ ~e.withIdx => Len(g) >= CommittedAt(cur.shpOps, e.i)
            \* the reader model agrees on the shapes whenever it reads the same number of them
